@@ -118,12 +118,13 @@ func init() {
 			"keys are rejected wherever supplied keys are walked; a value derived from GetDefaults() is stored only under a failed lookup of the same key (a supplied value is " +
 			"never overridden); a disabled property is never unserialized and the object code cannot bypass PropertySchema.Unserialize; the inline shorthand is guarded by " +
 			"len(properties) == 1 (R-MAPORDER/R-EXPLICIT in C04/C12); R-SYMM - one-of dispatch: the member's verdict decides on every operation, data is stripped of a " +
-			"non-inlined discriminator by copy, results get it back. R-NOCOERCE - as in C02 (Validate / Serialize do not coerce discriminators or fields). R-DISABLED - every PropertySchema method that hands data to its type (Unserialize, Validate, Serialize, data-mode ValidateCompatibility) returns a possibly-nil error only where Disabled is known false (branch on the flag, or a helper whose nil result implies it). NOT decided: the full truth table over interacting rule graphs and presence subsets.",
+			"non-inlined discriminator by copy, results get it back. R-NOCOERCE - as in C02 (Validate / Serialize do not coerce discriminators or fields). R-UNSETNIL - the presence function of struct-mapped objects can report a nil pointer, slice and map field as unset (what Unserialize leaves for an absent property). R-DISABLED - every PropertySchema method that hands data to its type (Unserialize, Validate, Serialize, data-mode ValidateCompatibility) returns a possibly-nil error only where Disabled is known false (branch on the flag, or a helper whose nil result implies it). NOT decided: the full truth table over interacting rule graphs and presence subsets.",
 		Rules: []func(*Ctx){
 			func(c *Ctx) { c.ruleNoCoerce("R-NOCOERCE"); c.R.Floor("R-NOCOERCE", 3) },
 			func(c *Ctx) { c.ruleObjectRules("R-OBJ") },
 			func(c *Ctx) { c.ruleOneOfSymm("R-SYMM") },
 			func(c *Ctx) { c.ruleDisabled("R-DISABLED") },
+			func(c *Ctx) { c.ruleUnsetNil("R-UNSETNIL"); c.R.Floor("R-UNSETNIL", 3) },
 			func(c *Ctx) { c.ruleErrDrop("R-ERRDROP", c.scopePkg("schema")) },
 		},
 	})
